@@ -310,7 +310,11 @@ pub fn run(args: &Args, rep: &mut Report) {
         let x = run_gated(&raw, d.stores.clone(), &prefix, false, vec![(d.make)()], oldest_first);
         rep.inc("executions");
         if let Err((sig, msg)) = judge(&raw, d, &x, &mut None) {
-            rep.violation(sig, msg, c.clone());
+            if sig == "INCONCLUSIVE" {
+                rep.machinery(msg);
+            } else {
+                rep.violation(sig, msg, c.clone());
+            }
         }
         return;
     }
@@ -368,7 +372,12 @@ pub fn run(args: &Args, rep: &mut Report) {
                     rep.sample(json!({"driver": d.name, "schedule": prefix.iter().map(|o| o.short()).collect::<Vec<_>>(), "completion_order": order}));
                 }
                 if let Err((sig, msg)) = judge(&raw, d, x, &mut first) {
-                    rep.violation(sig, msg, json!({"driver": d.name, "schedule": prefix}));
+                    if sig == "INCONCLUSIVE" {
+                        rep.inc("inconclusive_executions");
+                        rep.cap(format!("some executions did not reach quiescence within the time limit and were discarded ({})", msg.chars().take(60).collect::<String>()));
+                    } else {
+                        rep.violation(sig, msg, json!({"driver": d.name, "schedule": prefix}));
+                    }
                 }
             },
         );
@@ -401,7 +410,10 @@ fn judge(
         RunEnd::Deadlock(who) => {
             return Err((format!("C13/deadlock/{kind}"), format!("{}: quiescent with nothing pending but {who:?} unfinished", d.name)));
         }
-        RunEnd::Hang(m) => return Err((format!("C13/hang/{kind}"), format!("{}: {m}", d.name))),
+        // no quiescence within the time limit: under CPU overload a runnable thread can look busy for
+        // a long time, so this is inconclusive, not a verdict (a true deadlock - all threads blocked,
+        // nothing pending - is the `Deadlock` case above)
+        RunEnd::Hang(m) => return Err(("INCONCLUSIVE".into(), format!("{}: {m}", d.name))),
     }
     let o = &x.outcome[0];
     let res = match &o.result {
